@@ -29,7 +29,6 @@ def utf8_cases(rng, n):
 
 class C01(Check):
     ID = 'C01'
-    CASE_TIMEOUT = 120
     PROPS_MODULE = 'NcVerif.Props.C01'
     RULE = ('message lists (ASCII / 2-,3-,4-byte UTF-8 / whitespace-wrapped / containing delimiter look-alikes; up to multi-read size) '
             'encoded as a server would (1.0: end-of-message; 1.1: random chunkings down to single octets) and cut into transport reads '
@@ -64,6 +63,9 @@ class C01(Check):
                 out.append({'kind': 'sock', 'sc': {'transport': tr, 'profile': 'default', 'server_caps': caps,
                                                    'sizes': [B - 1, B, B + 1, 2 * B, 3 * B - 1, 3 * B] + ([rng.randint(300, 5 * B)] if tier == 'thorough' else [])}})
         return out
+
+    def case_timeout(self, case):
+        return 120 if case.get('kind') == 'sock' else None
 
     def run_impl(self, case):
         k = case.get('kind')
